@@ -186,6 +186,7 @@ func runC01(c *Ctx) {
 	c.ruleStep(a)
 	c.ruleLink("C01.link")
 	c.ruleCollectorAs("C01.drain", a)
+	c.ruleChainImmutable("C01.link")
 	c.ruleGraphMap("C01.range", "")
 	// the list a Send traverses is the one linked, at registration, from the nodes registered
 	// under the definition's ids at that moment (shares the commit rule of C05/C07)
